@@ -3,11 +3,14 @@
 
    - PastHashInvAll: the run-level hypothesis, a predicate on the initial content file and parity (every CHG entry of the map
      satisfies past_hash_inv w.r.t. the block that every parity level encodes at its position); decidable (phi_check).
-   - the stripe step on an ARBITRARY stripe (no synced hypothesis): dinvP (the loop over the disks), wfoldP (the write-back),
-     and SoundProofs.v post_general / stripe_step_fail give fix_step_pending: of a CHG slot the block after the step is the block
-     before it, or a rebuilt block that is not the stale old one, or the file is flagged DAMAGED; every other mapped block of
-     every file keeps its content or the file is flagged DAMAGED and renamed away.
-   - the run invariant rinvP and fix_run_chg_not_old_partial. *)
+   - repair_maps: repair only changes the out-of-date mark of the entries.  repair_ok_hash_verified: a bad entry with a recorded hash
+     that repair accepts holds a block that hashes to the recorded hash (fetched, strategy 1, strategy 2 alike).
+   - the stripe step on an ARBITRARY stripe and state (no synced hypothesis): open_fix_gen, dinvP (the loop over the disks),
+     wfoldP (the write-back), ok_body_frame, SoundProofs.v post_general / stripe_step_fail give fix_step_pending_full.
+   - the run: rinvP (every mapped block: flagged, or the block of the disk, or a rebuilt block -- not the stale old one for CHG,
+     hash verified for BLK / REP), fix_run_chg_pending, fix_run_blk_verified, fix_run_chg_not_old, fix_run_exit0_chg_not_old;
+     rinvM (mixed arrays): fix_run_synced_stripes, the blocks of the entirely synced stripes are the recorded blocks (the synced
+     stripe is handled by SoundProofs.v fix_step_sound, the frames by fix_step_pending_full). *)
 From Coq Require Import NArith ZArith List Bool Arith Lia.
 From Snap.Array Require Import ArrayDefs SyncProofsDefs.
 From Snap.Fix Require Import FixModel RepairProofs StripeProofs FlagWalk RunProofs PartialProofs GrownProofs SoundProofs.
@@ -403,6 +406,8 @@ Section Pending.
     exists s4, open_step bs newino now o pos j f s = Some s4
       /\ r_par s4 = r_par s /\ length (r_fs s4) = length (r_fs s)
       /\ (r_unrec s4 = r_unrec s /\ forall k, fl_damaged (get_fl (r_flags s4) k) = fl_damaged (get_fl (r_flags s) k))
+      /\ ((forall g, fs_find (r_fs s) j (cf_name f) = Some g -> cut_cond s j f g = false) ->
+          fl_fixed (get_fl (r_flags s4) (j, cf_name f)) = fl_fixed (get_fl (r_flags s) (j, cf_name f)))
       /\ fs_find (r_fs s4) j (cf_name f) = Some (opened_file s j f)
       /\ (forall j' n', (j', n') <> (j, cf_name f) -> fs_find (r_fs s4) j' n' = fs_find (r_fs s) j' n')
       /\ (forall k', k' <> (j, cf_name f) -> get_fl (r_flags s4) k' = get_fl (r_flags s) k').
@@ -415,6 +420,7 @@ Section Pending.
         { unfold open_step. rewrite (plain_not_excl nlev o j _ Hp), Eg, (pl_synced nlev o Hp), Hfix. cbn [negb andb orb]. rewrite Eg, Eo. cbn [negb andb]. reflexivity. }
         split; [reflexivity|]. split; [reflexivity|].
         split; [split; [reflexivity | intro k; apply (rs_flag_keeps s (j, cf_name f) fl_set_opened keeps_opened k)]|].
+        split; [intros _; apply (rs_flag_keeps s (j, cf_name f) fl_set_opened keeps_opened (j, cf_name f))|].
         cbn [r_par r_fs rs_flag rs_setfl]. split; [exact Eg|]. split; [reflexivity|].
         intros k' Hk. apply (rs_flag_other s (j, cf_name f) fl_set_opened k' Hk).
       + (* larger, first open: cut back *)
@@ -423,17 +429,19 @@ Section Pending.
         exists s4. split; [exact E1|]. split; [exact E3|]. rewrite E2. split; [apply fs_put_length|].
         split; [split; [exact Eu|]; intro k; destruct (fkey_eqb k (j, cf_name f)) eqn:Ek;
                 [apply fkey_eqb_eq in Ek; subst k; exact Edm | rewrite E4; [reflexivity | intro X; subst k; rewrite fkey_eqb_refl in Ek; discriminate Ek]]|].
+        split; [intro Hnc; specialize (Hnc g eq_refl);
+                assert (Y : (cf_size f <? ff_size g)%N = true) by (apply N.ltb_lt; exact El); rewrite Y in Hnc; discriminate Hnc|].
         split; [unfold GrownProofs.cutf; apply fs_find_put_mk; exact Hj|]. split; [|exact E4].
         intros j' n' Hne. apply fs_find_put_other. exact Hne.
       + (* not larger *)
         apply N.ltb_ge in El.
         destruct (open_present bs nlev newino now o pos j f s g Hp Eg El (or_introl Hfix)) as [s4 [E1 [E2 Hc]]].
         exists s4. split; [exact E1|]. destruct Hc as [C1 [Cu [_ [_ [_ [_ [C2 Cb]]]]]]]. split; [exact C1|]. split; [exact C2|].
-        split; [split; [exact Cu | intro k; apply (Cb k)]|]. rewrite E2.
+        split; [split; [exact Cu | intro k; apply (Cb k)]|]. split; [intros _; apply (Cb (j, cf_name f))|]. rewrite E2.
         split; [exact Eg|]. split; [reflexivity|]. intros k' Hk. apply (open_step_other_flags bs newino now o pos j f s s4 k' E1 Hk).
     - destruct (open_absent_fix bs nlev newino now o pos j f s Hp Hfix Eg Hj) as [s4 [E1 [E2 Hc]]].
       exists s4. split; [exact E1|]. destruct Hc as [C1 [Cu [_ [_ [_ [_ [C2 Cb]]]]]]]. split; [exact C1|]. split; [exact C2|].
-      split; [split; [exact Cu | intro k; apply (Cb k)]|]. rewrite E2.
+      split; [split; [exact Cu | intro k; apply (Cb k)]|]. split; [intros _; apply (Cb (j, cf_name f))|]. rewrite E2.
       split; [apply fs_find_put_mk; exact Hj|]. split; [intros j' n' Hne; apply fs_find_put_other; exact Hne|].
       intros k' Hk. apply (open_step_other_flags bs newino now o pos j f s s4 k' E1 Hk).
   Qed.
@@ -449,27 +457,32 @@ Section Pending.
       (* no bad entry: the block was read and, unless it is a CHG block, it hashes to the recorded hash *)
       /\ ((forall e, In e fe -> fe_bad e = false) ->
           fb_state b = SChg \/ exists data, read_block bs s4 j f idx = Some data /\ hash_ok hashf bs f idx b data = true)
+      (* ... and conversely *)
+      /\ (forall data, read_block bs s4 j f idx = Some data -> (fb_state b <> SChg -> hash_ok hashf bs f idx b data = true) ->
+                       forall e, In e fe -> fe_bad e = false)
       /\ r_fs s' = r_fs s4 /\ r_flags s' = r_flags s4 /\ r_par s' = r_par s4 /\ r_unrec s' = r_unrec s4.
   Proof.
     intros Hp Hfix Hd Hs Hj.
     destruct (open_fix_gen o pos j f (da_st a) Hp Hfix Hj) as [s4 [Eo _]].
     exists s4. unfold FixModel.data_step. rewrite Hd, Hs, (pl_audit nlev o Hp). cbn [andb]. rewrite Eo.
-    assert (Hbad : forall l : list fent, (exists e, In e l /\ fe_bad e = true) -> (forall e, In e l -> fe_bad e = false) -> False).
-    { intros l [e [He Hb]] H. rewrite (H e He) in Hb. discriminate Hb. }
     destruct (read_block bs s4 j f idx) as [data|].
     - destruct (fb_state b) eqn:Est.
       + destruct (hval_eqb (hashf data (block_len bs (cf_size f) idx)) (fb_hash b)) eqn:Eh; cbn [bstate_eqb].
-        * do 4 eexists. split; [reflexivity|]. split; [reflexivity|]. split; [left; reflexivity|]. split; [intros _; right; exists data; split; [reflexivity | exact Eh] | auto].
+        * do 4 eexists. split; [reflexivity|]. split; [reflexivity|]. split; [left; reflexivity|].
+          split; [intros _; right; exists data; split; [reflexivity | exact Eh]|]. split; [intros d0 _ _ e [] | auto].
         * do 4 eexists. split; [reflexivity|]. split; [reflexivity|]. split; [right; exists true; unfold ent; rewrite Est; reflexivity|].
-          split; [intro H; exfalso; apply (Hbad _ ltac:(eexists; split; [left; reflexivity | reflexivity]) H) | auto].
-      + do 4 eexists. split; [reflexivity|]. split; [reflexivity|]. split; [right; exists false; unfold ent; rewrite Est; reflexivity|]. split; [intros _; left; reflexivity | auto].
+          split; [intro H; specialize (H _ (or_introl eq_refl)); discriminate H|].
+          split; [intros d0 Hd0 Hh e _; injection Hd0 as Hd0; subst d0; unfold hash_ok in Hh; rewrite Eh in Hh; specialize (Hh ltac:(discriminate)); discriminate Hh | auto].
+      + do 4 eexists. split; [reflexivity|]. split; [reflexivity|]. split; [right; exists false; unfold ent; rewrite Est; reflexivity|].
+        split; [intros _; left; reflexivity|]. split; [intros d0 _ _ e [He|[]]; subst e; reflexivity | auto].
       + destruct (hval_eqb (hashf data (block_len bs (cf_size f) idx)) (fb_hash b)) eqn:Eh; cbn [bstate_eqb].
         * do 4 eexists. split; [reflexivity|]. split; [reflexivity|]. split; [right; exists false; unfold ent; rewrite Est; reflexivity|].
-          split; [intros _; right; exists data; split; [reflexivity | exact Eh] | auto].
+          split; [intros _; right; exists data; split; [reflexivity | exact Eh]|]. split; [intros d0 _ _ e [He|[]]; subst e; reflexivity | auto].
         * do 4 eexists. split; [reflexivity|]. split; [reflexivity|]. split; [right; exists true; unfold ent; rewrite Est; reflexivity|].
-          split; [intro H; exfalso; apply (Hbad _ ltac:(eexists; split; [left; reflexivity | reflexivity]) H) | auto].
+          split; [intro H; specialize (H _ (or_introl eq_refl)); discriminate H|].
+          split; [intros d0 Hd0 Hh e _; injection Hd0 as Hd0; subst d0; unfold hash_ok in Hh; rewrite Eh in Hh; specialize (Hh ltac:(discriminate)); discriminate Hh | auto].
     - do 4 eexists. split; [reflexivity|]. split; [reflexivity|]. split; [right; exists true; reflexivity|].
-      split; [intro H; exfalso; apply (Hbad _ ltac:(eexists; split; [left; reflexivity | reflexivity]) H) | auto].
+      split; [intro H; specialize (H _ (or_introl eq_refl)); discriminate H|]. split; [intros d0 Hd0; discriminate Hd0 | auto].
   Qed.
 
   (* ---- the loop over the disks, any stripe ---------------------------------------------------------------------------- *)
@@ -509,6 +522,15 @@ Section Pending.
       dp_good : forall j f idx b, slot_of c pos j = SFile f idx b -> j < k -> fb_state b <> SChg ->
                   (forall e, In e (da_failed a) -> fe_idx e = j -> fe_bad e = false) ->
                   hash_ok hashf bs f idx b (nth idx (ff_blocks (opened_file s j f)) 0%N) = true;
+      (* a block that reads (and, unless CHG, hashes to the recorded hash) in a file that open does not cut has no bad entry, and
+         its file is not flagged FIXED by the loop *)
+      dp_nobad : forall j f idx b, slot_of c pos j = SFile f idx b -> j < k ->
+                   (exists y, read_block bs s j f idx = Some y /\ (fb_state b <> SChg -> hash_ok hashf bs f idx b y = true)) ->
+                   (forall g, fs_find (r_fs s) j (cf_name f) = Some g -> cut_cond s j f g = false) ->
+                   forall e, In e (da_failed a) -> fe_idx e = j -> fe_bad e = false;
+      dp_nofix : forall j f idx b, slot_of c pos j = SFile f idx b -> j < k ->
+                   (forall g, fs_find (r_fs s) j (cf_name f) = Some g -> cut_cond s j f g = false) ->
+                   fl_fixed (get_fl (r_flags (da_st a)) (j, cf_name f)) = fl_fixed (get_fl (r_flags s) (j, cf_name f));
       dp_nd : NoDup (map fe_idx (da_failed a))
     }.
 
@@ -551,6 +573,11 @@ Section Pending.
           + destruct Hfe as [Hfe|[h Hfe]]; subst fe; [contradiction|]. destruct He as [He|[]]. subst e. cbn. split; [lia|]. split; [reflexivity | left; auto].
         - intros j f idx b Hs Hj Hnc Hall. destruct (Nat.eq_dec j k) as [E|E]; [subst j; exfalso; apply (Hno f idx b Hs)|].
           apply (dp_good0 j f idx b Hs ltac:(lia) Hnc). intros e He. apply Hall. apply in_or_app. left. exact He.
+        - intros j f idx b Hs Hj Hrd Hnc e He Hi. destruct (Nat.eq_dec j k) as [E|E]; [rewrite E in Hs; exfalso; apply (Hno f idx b Hs)|].
+          apply in_app_or in He. destruct He as [He|He]; [apply (dp_nobad0 j f idx b Hs ltac:(lia) Hrd Hnc e He Hi)|].
+          destruct Hfe as [Hfe|[h Hfe]]; subst fe; [contradiction|]. destruct He as [He|[]]. subst e. reflexivity.
+        - intros j f idx b Hs Hj Hnc. destruct (Nat.eq_dec j k) as [E|E]; [subst j; exfalso; apply (Hno f idx b Hs)|].
+          rewrite E2. apply (dp_nofix0 j f idx b Hs ltac:(lia) Hnc).
         - rewrite map_app. destruct Hfe as [Hfe|[h Hfe]]; subst fe; cbn [map]; [rewrite app_nil_r; exact dp_nd0 | apply nodup_snoc; assumption]. }
       destruct (nth k (c_disks c) None) as [d|] eqn:Ed.
       2: { unfold FixModel.data_step. rewrite Ed. rewrite <- (app_nil_r (da_failed a)). apply Hpush; auto. intros f idx b X. rewrite Hso in X. discriminate X. }
@@ -558,8 +585,8 @@ Section Pending.
       - unfold FixModel.data_step. rewrite Ed, Esa. rewrite <- (app_nil_r (da_failed a)). apply Hpush; auto. intros f idx b X. rewrite Hso in X. discriminate X.
       - (* a file block *)
         assert (Hkl : k < length (r_fs (da_st a))) by (rewrite (dp_len k a I), Hlenfs; exact Hk).
-        destruct (data_step_sfile o c pos a k d f idx b Hplain Hfix Ed Esa Hkl) as [s4 [s' [x [fe [v' [Eo [Eds [Hfe [Hgd [E1 [E2 [E3 E4]]]]]]]]]]]].
-        destruct (open_fix_gen o pos k f (da_st a) Hplain Hfix Hkl) as [s4' [Eo' [O1 [O2 [[Ou Od] [O3 [O4 O5]]]]]]].
+        destruct (data_step_sfile o c pos a k d f idx b Hplain Hfix Ed Esa Hkl) as [s4 [s' [x [fe [v' [Eo [Eds [Hfe [Hgd [Hcv [E1 [E2 [E3 E4]]]]]]]]]]]]].
+        destruct (open_fix_gen o pos k f (da_st a) Hplain Hfix Hkl) as [s4' [Eo' [O1 [O2 [[Ou Od] [Ofx [O3 [O4 O5]]]]]]]].
         rewrite Eo in Eo'. injection Eo' as Eo'. subst s4'.
         assert (Eof : opened_file (da_st a) k f = opened_file s k f).
         { unfold opened_file, cut_cond. rewrite (dp_fs k a I k (cf_name f)), Nat.ltb_irrefl. rewrite (dp_hi k a I (k, cf_name f)) by (cbn; lia). reflexivity. }
@@ -588,6 +615,21 @@ Section Pending.
             destruct (read_block_some bs s4 k f idx data Hr) as [g [Hg [Hy _]]]. rewrite O3 in Hg. injection Hg as Hg. subst g.
             rewrite <- Eof, <- Hy. exact Hh.
           * apply (dp_good0 j f0 idx0 b0 Hs0 ltac:(lia) Hnc). intros e He. apply Hall. apply in_or_app. left. exact He.
+        + intros j f0 idx0 b0 Hs0 Hj [y [Hry Hhy]] Hnc e He Hi. apply in_app_or in He. destruct He as [He|He].
+          * destruct (Nat.eq_dec j k) as [E|E]; [destruct (dp_ent0 e He) as [X _]; lia|].
+            apply (dp_nobad0 j f0 idx0 b0 Hs0 ltac:(lia) (ex_intro _ y (conj Hry Hhy)) Hnc e He Hi).
+          * assert (Ej : j = k). { destruct Hfe as [Hfe|[bad Hfe]]; subst fe; [contradiction|]. destruct He as [He|[]]. subst e. cbn in Hi. auto. }
+            clear Hi. subst j. rewrite Hso in Hs0. injection Hs0 as X1 X2 X3. subst f0 idx0 b0.
+            apply (Hcv y); [|exact Hhy | exact He].
+            (* the file opened is the file of s: not cut *)
+            destruct (read_block_some bs s k f idx y Hry) as [g [Hg [Hy Hz]]].
+            unfold read_block. rewrite O3, Eof. unfold opened_file. rewrite Hg, (Hnc g Hg).
+            unfold read_block in Hry. rewrite Hg in Hry. exact Hry.
+        + intros j f0 idx0 b0 Hs0 Hj Hnc. destruct (Nat.eq_dec j k) as [E|E].
+          * subst j. rewrite Hso in Hs0. injection Hs0 as X1 X2 X3. subst f0 idx0 b0.
+            rewrite E2, Ofx; [apply f_equal; apply dp_hi0; cbn; lia|].
+            intros g Hg. rewrite (dp_fs0 k (cf_name f)), Nat.ltb_irrefl in Hg. unfold cut_cond. rewrite (dp_hi0 (k, cf_name f)) by (cbn; lia). apply (Hnc g Hg).
+          * rewrite E2, O5 by (intro X; injection X as X1 X2; contradiction). apply (dp_nofix0 j f0 idx0 b0 Hs0 ltac:(lia) Hnc).
         + rewrite map_app. destruct Hfe as [Hfe|[bad Hfe]]; subst fe; cbn [map]; [rewrite app_nil_r; exact dp_nd0 | apply nodup_snoc; assumption].
       - unfold FixModel.data_step. rewrite Ed, Esa. apply Hpush; auto; [intros f idx b X; rewrite Hso in X; discriminate X | right; exists h; reflexivity].
     Qed.
@@ -798,6 +840,47 @@ Section Pending.
     - rewrite Hfix. cbv beta iota zeta. apply (Hmain s4 B1 B2 B3 B4). left. reflexivity.
   Qed.
 
+  (* the flags of a file that is not the file of a bad entry are not touched by the step after a successful repair *)
+  Definition not_target (l : list fent) (key : fkey) : Prop :=
+    forall e f i, In e l -> fe_bad e = true -> fe_file e = Some (f, i) -> key <> (fe_idx e, cf_name f).
+
+  Lemma wfold_flags_other o pos buf key : plain nlev o -> forall l st, not_target l key ->
+    get_fl (r_flags (fold_left (wstep o pos buf) l st)) key = get_fl (r_flags st) key.
+  Proof.
+    intro Hp. induction l as [|e t IH]; intros st Hnt; [reflexivity|]. cbn [fold_left].
+    rewrite IH by (intros e' f i He'; apply Hnt; right; exact He').
+    unfold StripeProofs.wstep. destruct (fe_bad e) eqn:Eb; cbn [negb]; [|reflexivity].
+    destruct (fe_file e) as [[f i]|] eqn:Ef; [|reflexivity].
+    rewrite (plain_not_excl nlev o _ _ Hp), (pl_synced nlev o Hp). cbn [orb andb].
+    assert (Hk : key <> (fe_idx e, cf_name f)) by (apply (Hnt e f i (or_introl eq_refl) Eb Ef)).
+    destruct (fs_find (r_fs st) (fe_idx e) (cf_name f)); destruct (fe_ood e); unfold rs_recov, rs_tag, rs_flag, rs_setfl, rs_setfs; cbn [r_flags];
+      apply get_set_other; exact Hk.
+  Qed.
+
+  Lemma ok_body_flags_other o pos failed' rec buf cp s1b key :
+    plain nlev o -> co_fix o = true -> not_target failed' key ->
+    get_fl (r_flags (ok_body padz truncf bs nlev now o pos failed' rec buf cp s1b)) key = get_fl (r_flags s1b) key.
+  Proof.
+    intros Hp Hfix Hnt. unfold ok_body. cbv zeta.
+    set (partial := filter (fun e => fe_bad e && fe_ood e) failed').
+    destruct (fold_partial_frame pos partial s1b) as [_ [A2 _]]. cbn zeta in A2.
+    set (s3 := fold_left _ partial s1b) in *.
+    set (s4 := match partial with [] => s3 | _ => rs_unrec (rs_err s3 (length partial)) 1 end).
+    assert (B2 : r_flags s4 = r_flags s1b) by (unfold s4; destruct partial; cbn; auto).
+    assert (Hmain : forall s5, r_flags s5 = r_flags s1b ->
+              forall s7, (s7 = write_phase padz truncf bs now o pos failed' buf s5
+                          \/ exists rec2, s7 = parity_write_phase nlev o pos rec2 buf (write_phase padz truncf bs now o pos failed' buf s5)) ->
+              get_fl (r_flags s7) key = get_fl (r_flags s1b) key).
+    { intros s5 E2 s7 Hs7. rewrite <- E2, <- (wfold_flags_other o pos buf key Hp failed' s5 Hnt), <- write_phase_fold.
+      destruct Hs7 as [X|[rec2 X]]; subst s7; [reflexivity|].
+      destruct (parity_write_fold o pos rec2 buf (seq 0 nlev) (write_phase padz truncf bs now o pos failed' buf s5) (seq_NoDup nlev 0)) as [_ [P2 _]].
+      unfold parity_write_phase. rewrite P2. reflexivity. }
+    destruct cp.
+    - rewrite compare_phase_spec. rewrite Hfix. cbv beta iota zeta.
+      match goal with |- context [write_phase padz truncf bs now o pos failed' buf ?st] => apply (Hmain st) end; [exact B2 | right; eexists; reflexivity].
+    - rewrite Hfix. cbv beta iota zeta. apply (Hmain s4 B2). left. reflexivity.
+  Qed.
+
   Lemma opened_file_blk s j f i :
     i < nblocks bs (cf_size f) -> nth i (ff_blocks (opened_file s j f)) 0%N = fblk (r_fs s) j (cf_name f) i.
   Proof.
@@ -843,7 +926,8 @@ Section Pending.
                not the stale old block *)
             \/ ((forall i, i <> idx -> i < nblocks bs (cf_size f) -> fblk (r_fs s') j (cf_name f) i = fblk (r_fs s) j (cf_name f) i)
                 /\ (idx < nblocks bs (cf_size f) ->
-                      fblk (r_fs s') j (cf_name f) idx = fblk (r_fs s) j (cf_name f) idx
+                      (fblk (r_fs s') j (cf_name f) idx = fblk (r_fs s) j (cf_name f) idx
+                         /\ (fb_state b <> SChg -> dam s' j f = true \/ hash_ok hashf bs f idx b (fblk (r_fs s) j (cf_name f) idx) = true))
                       \/ exists x, fblk (r_fs s') j (cf_name f) idx = wbv f idx x
                                    /\ (fb_state b = SChg -> dam s' j f = true \/ NotOld j f idx b x)
                                    /\ (fb_state b <> SChg -> dam s' j f = true \/ hash_ok hashf bs f idx b x = true))))
@@ -856,11 +940,23 @@ Section Pending.
       /\ (forall j f idx b, slot_of c pos j = SFile f idx b ->
             (fs_find (r_fs s') j (cf_name f) = None /\ S idx = length (cf_blocks f))
             \/ ((ff_size (opened_file s j f) <= fsz (r_fs s') j (cf_name f))%N
-                /\ (fsz (r_fs s') j (cf_name f) <= N.max (ff_size (opened_file s j f)) (N.of_nat idx * bs + block_len bs (cf_size f) idx))%N)).
+                /\ (fsz (r_fs s') j (cf_name f) <= N.max (ff_size (opened_file s j f)) (N.of_nat idx * bs + block_len bs (cf_size f) idx))%N))
+      (* the FIXED and DAMAGED flags of the other files *)
+      /\ (forall j n, (forall f idx b, slot_of c pos j = SFile f idx b -> cf_name f <> n) ->
+                      fl_fixed (get_fl (r_flags s') (j, n)) = fl_fixed (get_fl (r_flags s) (j, n))
+                      /\ fl_damaged (get_fl (r_flags s') (j, n)) = fl_damaged (get_fl (r_flags s) (j, n)))
+      (* a file of the stripe whose block reads (and, unless CHG, hashes to the recorded hash), that open does not cut, and that is
+         neither FIXED nor DAMAGED: not touched *)
+      /\ (forall j f idx b, slot_of c pos j = SFile f idx b ->
+            (exists y, read_block bs s j f idx = Some y /\ (fb_state b <> SChg -> hash_ok hashf bs f idx b y = true)) ->
+            (forall g, fs_find (r_fs s) j (cf_name f) = Some g -> cut_cond s j f g = false) ->
+            fl_fixed (get_fl (r_flags s) (j, cf_name f)) = false -> dam s j f = false ->
+            fs_find (r_fs s') j (cf_name f) = fs_find (r_fs s) j (cf_name f)
+            /\ fl_fixed (get_fl (r_flags s') (j, cf_name f)) = false /\ dam s' j f = false).
     Proof.
       pose proof (data_phase_P o c pos s Hplain Hfix Hlenfs) as DP.
       set (a := data_phase o c pos s) in *.
-      destruct DP as [Dlen Dbl Dpar Dunrec Ddam Dfs Dhi Doth Dent Dnd].
+      destruct DP as [Dlen Dbl Dpar Dunrec Ddam Dfs Dhi Doth Dent Dgood Dnobad Dnofix Dnd].
       pose proof (parity_phase_spec nlev o pos (da_st a) (pl_popen nlev o Hplain)) as Epp.
       set (rec := map (prow (r_par (da_st a)) pos) (seq 0 nlev)) in *.
       destruct (repair hashf padz bs nlev false pos (co_nosearch o) (search_view fs0 (r_fs (da_st a))) (da_failed a) rec (da_buf a) (r_jn (da_st a)))
@@ -890,14 +986,20 @@ Section Pending.
         /\ (forall j f idx b, slot_of c pos j = SFile f idx b ->
               exists g7, fs_find (r_fs s7) j (cf_name f) = Some g7
                 /\ (forall i, i <> idx -> nth i (ff_blocks g7) 0%N = nth i (ff_blocks (opened_file s j f)) 0%N)
-                /\ (nth idx (ff_blocks g7) 0%N = nth idx (ff_blocks (opened_file s j f)) 0%N
+                /\ ((nth idx (ff_blocks g7) 0%N = nth idx (ff_blocks (opened_file s j f)) 0%N
+                        /\ (fb_state b <> SChg -> dam s7 j f = true \/ hash_ok hashf bs f idx b (nth idx (ff_blocks (opened_file s j f)) 0%N) = true))
                     \/ exists x, nth idx (ff_blocks g7) 0%N = wbv f idx x /\ (fb_state b = SChg -> dam s7 j f = true \/ NotOld j f idx b x)
                                  /\ (fb_state b <> SChg -> dam s7 j f = true \/ hash_ok hashf bs f idx b x = true))
                 /\ ((ff_size (opened_file s j f) <= ff_size g7)%N
                     /\ (ff_size g7 <= N.max (ff_size (opened_file s j f)) (N.of_nat idx * bs + block_len bs (cf_size f) idx))%N))
         /\ (r_unrec s <= r_unrec s7 /\ (r_unrec s7 = r_unrec s -> forall k, fl_damaged (get_fl (r_flags s7) k) = fl_damaged (get_fl (r_flags s) k)))
         /\ (length (r_par s7) = length (r_par s) /\ (forall l p, p <> pos -> nth p (nth l (r_par s7) []) PNone = nth p (nth l (r_par s) []) PNone)
-            /\ forall k, fl_opened (get_fl (r_flags s7) k) = fl_opened (get_fl (r_flags (da_st a)) k))).
+            /\ forall k, fl_opened (get_fl (r_flags s7) k) = fl_opened (get_fl (r_flags (da_st a)) k))
+        /\ (forall key, not_target failed' key ->
+              fl_fixed (get_fl (r_flags s7) key) = fl_fixed (get_fl (r_flags (da_st a)) key)
+              /\ fl_damaged (get_fl (r_flags s7) key) = fl_damaged (get_fl (r_flags (da_st a)) key))
+        /\ (forall j f idx b, slot_of c pos j = SFile f idx b -> not_target failed' (j, cf_name f) ->
+              fs_find (r_fs s7) j (cf_name f) = Some (opened_file s j f))).
       { assert (Hcase : res = ROk \/ res <> ROk) by (destruct res; [left; reflexivity | right; discriminate | right; discriminate]).
         destruct Hcase as [Eres|Nres].
         - subst res.
@@ -915,14 +1017,17 @@ Section Pending.
                /\ (forall j f idx b, slot_of c pos j = SFile f idx b ->
                      exists g7, fs_find (r_fs s7) j (cf_name f) = Some g7
                        /\ (forall i, i <> idx -> nth i (ff_blocks g7) 0%N = nth i (ff_blocks (opened_file s j f)) 0%N)
-                       /\ (nth idx (ff_blocks g7) 0%N = nth idx (ff_blocks (opened_file s j f)) 0%N
+                       /\ ((nth idx (ff_blocks g7) 0%N = nth idx (ff_blocks (opened_file s j f)) 0%N
+                               /\ (fb_state b <> SChg -> dam s7 j f = true \/ hash_ok hashf bs f idx b (nth idx (ff_blocks (opened_file s j f)) 0%N) = true))
                            \/ exists x, nth idx (ff_blocks g7) 0%N = wbv f idx x /\ (fb_state b = SChg -> dam s7 j f = true \/ NotOld j f idx b x)
                                  /\ (fb_state b <> SChg -> dam s7 j f = true \/ hash_ok hashf bs f idx b x = true))
                        /\ ((ff_size (opened_file s j f) <= ff_size g7)%N
                            /\ (ff_size g7 <= N.max (ff_size (opened_file s j f)) (N.of_nat idx * bs + block_len bs (cf_size f) idx))%N))).
-          { intros [X1 X2]. split; [exact X1|]. split; [exact X2|]. split.
+          { intros [X1 X2]. split; [exact X1|]. split; [exact X2|]. split; [|split; [|split]].
             - rewrite <- Dunrec. split; [exact Ku|]. intros Hu k. rewrite (Kd Hu k). apply Ddam.
-            - rewrite <- Dpar. split; [exact Kp1|]. split; [exact Kp2 | exact Kop]. }
+            - rewrite <- Dpar. split; [exact Kp1|]. split; [exact Kp2 | exact Kop].
+            - intros key Hnt. unfold s7. rewrite (ok_body_flags_other o pos failed' rec buf cpv s1b key Hplain Hfix Hnt). split; reflexivity.
+            - intros j f idx b Es Hnt. rewrite K3; [apply (Hslotfs j f idx b Es)|]. intros e' f0 i0 He' Hb' Hf'. apply (Hnt e' f0 i0 He' Hb' Hf'). }
           split.
           + intros j n Hno. rewrite K3; [apply Hothfs; exact Hno|].
             intros e' f0 i0 He' Hb Hf X. injection X as X1 X2. destruct (Hbadent e' He' Hb) as [f1 [idx1 [b1 [Es1 [Ef1 _]]]]].
@@ -944,7 +1049,10 @@ Section Pending.
               assert (Hidxlt : forall e, In e (da_failed a) -> fe_idx e < length (da_buf a)) by (intros e He; rewrite Dbl; apply (Dent e He)).
               pose proof (repair_ok_hash_verified hashf padz bs nlev pos _ _ _ _ _ _ _ _ _ _ Dnd Hidxlt Erep e' He' Hb' Eo Hup) as Hv.
               unfold hash_passes, FixModel.fe_len in Hv. rewrite Eh1, Ef1, Hi' in Hv. exact Hv.
-            * exists (opened_file s j f). split; [|split; [reflexivity | split; [left; reflexivity | split; lia]]].
+            * exists (opened_file s j f). split; [|split; [reflexivity | split; [left; split; [reflexivity|] | split; lia]]].
+              2: { intro Hnc. right. apply (Dgood j f idx b Es (slot_lt c pos j f idx b Es) Hnc).
+                   intros e He Hi. pose proof (find_none _ _ Efind (gm e) ltac:(rewrite Egm; apply in_map; exact He)) as Y. cbn beta in Y.
+                   destruct (Hgm e) as [G1 [G2 _]]. rewrite G1, G2, Hi, Nat.eqb_refl in Y. exact Y. }
               rewrite K3; [exact Hg1|]. intros e' f0 i0 He' Hb' _ X. injection X as X1 _.
               pose proof (find_none _ _ Efind e' He') as Y. cbn beta in Y. rewrite Hb', <- X1, Nat.eqb_refl in Y. discriminate Y.
         - erewrite (stripe_step_fail hashf padz truncf bs nlev false newino now o c fs0 pos s rec _ res failed' buf jn' rtags);
@@ -953,18 +1061,32 @@ Section Pending.
           match goal with |- context [fold_left _ (bad_files failed') (fold_left _ (bad_files failed') ?st)] => set (s3 := st) end.
           destruct (fold_unrec_tags pos (bad_files failed') s3) as [T1 [T2 [T3 [T4 _]]]]. cbn zeta in T1, T2, T3, T4.
           set (s4 := fold_left (fun s x => let '(j, f, i) := x in rs_tag s [tg K_UNREC [pos; j] [cf_name f; N.of_nat i]]) (bad_files failed') s3) in *.
-          destruct (fold_damaged (bad_files failed') s4) as [D1 [D2 [D3 [_ [D5 _]]]]]. cbn zeta in D1, D2, D3, D5.
+          destruct (fold_damaged (bad_files failed') s4) as [D1 [D2 [D3 [_ [D5 D6]]]]]. cbn zeta in D1, D2, D3, D5, D6.
           set (s7 := fold_left (fun s x => let '(j, f, i) := x in rs_flag s (j, cf_name f) fl_set_damaged) (bad_files failed') s4) in *.
           assert (E7 : r_fs s7 = r_fs (da_st a)) by (rewrite D1, T1; reflexivity).
           assert (Eu7 : r_unrec s7 = r_unrec s + 1).
           { rewrite D3, T3. unfold s3. cbn [r_unrec rs_unrec rs_err rs_tag rs_setjn]. rewrite Dunrec. reflexivity. }
           exists s7. split; [reflexivity|]. rewrite E7. split; [exact Dlen|]. split; [exact Hothfs|]. split.
-          + intros j f idx b Es. exists (opened_file s j f). split; [apply (Hslotfs j f idx b Es) | split; [reflexivity | split; [left; reflexivity | split; lia]]].
+          + intros j f idx b Es. exists (opened_file s j f). split; [apply (Hslotfs j f idx b Es) | split; [reflexivity | split; [left; split; [reflexivity|] | split; lia]]].
+            intro Hnc. destruct (find (fun e => Nat.eqb (fe_idx e) j && fe_bad e) failed') as [e'|] eqn:Efind.
+            * left. apply find_some in Efind. destruct Efind as [He' Hp']. apply andb_true_iff in Hp'. destruct Hp' as [Hi' Hb']. apply Nat.eqb_eq in Hi'.
+              destruct (Hbadent e' He' Hb') as [f1 [idx1 [b1 [Es1 [Ef1 _]]]]]. rewrite Hi', Es in Es1. injection Es1 as Y1 Y2 Y3. subst f1 idx1 b1.
+              apply D6. right. exists (j, f, idx). split; [|reflexivity].
+              unfold bad_files. apply in_flat_map. exists e'. split; [exact He'|]. rewrite Hb', Ef1, Hi'. left. reflexivity.
+            * right. apply (Dgood j f idx b Es (slot_lt c pos j f idx b Es) Hnc).
+              intros e He Hi. pose proof (find_none _ _ Efind (gm e) ltac:(rewrite Egm; apply in_map; exact He)) as Y. cbn beta in Y.
+              destruct (Hgm e) as [G1 [G2 _]]. rewrite G1, G2, Hi, Nat.eqb_refl in Y. exact Y.
           + split; [split; [lia | intro X; lia]|].
             assert (Ep7 : r_par s7 = r_par s) by (rewrite D2, T2; unfold s3; cbn [r_par rs_unrec rs_err rs_tag rs_setjn]; exact Dpar).
-            rewrite Ep7. split; [reflexivity|]. split; [reflexivity|].
-            intro k. destruct (D5 k) as [_ X]. rewrite X, T4. reflexivity. }
-      destruct HU as [s7 [E7 [U1 [U2 [U3 [[U4a U4b] [U5a [U5b U5c]]]]]]]].
+            rewrite Ep7. split; [split; [reflexivity|]; split; [reflexivity|]; intro k; destruct (D5 k) as [_ X]; rewrite X, T4; reflexivity|].
+            split.
+            * intros key Hnt. destruct (D5 key) as [X _]. rewrite X, T4. split; [reflexivity|].
+              apply Bool.eq_true_iff_eq. rewrite (D6 key), T4. split; [|intro Y; left; exact Y].
+              intros [Y|[x [Hx Hk]]]; [exact Y|]. exfalso. unfold bad_files in Hx. apply in_flat_map in Hx. destruct Hx as [e' [He' Hx]].
+              destruct (fe_bad e') eqn:Eb'; [|contradiction]. destruct (fe_file e') as [[f0 i0]|] eqn:Ef'; [|contradiction].
+              destruct Hx as [Hx|[]]. subst x. apply (Hnt e' f0 i0 He' Eb' Ef'). exact Hk.
+            * intros j f idx b Es _. apply (Hslotfs j f idx b Es). }
+      destruct HU as [s7 [E7 [U1 [U2 [U3 [[U4a U4b] [[U5a [U5b U5c]] [U7 U8]]]]]]]].
       cbn zeta. rewrite E7.
       destruct (post_general hashf padz truncf bs nlev newino o c pos Hplain Hfix (seq 0 (length (c_disks c))) s7 (seq_NoDup _ 0)) as [P1 [P2 [P3 [P4 [_ [P6 P7]]]]]].
       cbn zeta in P1, P2, P3, P4, P6, P7.
@@ -981,7 +1103,27 @@ Section Pending.
           + right. exists g7. rewrite (Pd2 El). auto.
         - right. destruct (Pg eq_refl) as [Q _]. rewrite G1 in Q. destruct (fs_find (r_fs s') j (cf_name f)) as [g|]; [|contradiction].
           exists g. destruct Q as [Q1 Q2]. auto. }
-      split; [congruence|]. split; [|split; [|split; [|split; [|split]]]].
+      (* a bad entry is the entry of the block of its disk: the keys it can target *)
+      assert (Hnt_other : forall j n, (forall f idx b, slot_of c pos j = SFile f idx b -> cf_name f <> n) -> not_target failed' (j, n)).
+      { intros j n Hno e' f0 i0 He' Hb' Hf' X. injection X as X1 X2. destruct (Hbadent e' He' Hb') as [f1 [idx1 [b1 [Es1 [Ef1 _]]]]].
+        rewrite Hf' in Ef1. injection Ef1 as Y1 Y2. subst f1 idx1. rewrite <- X1 in Es1. apply (Hno f0 i0 b1 Es1). symmetry. exact X2. }
+      split; [congruence|]. split; [|split; [|split; [|split; [|split; [|split; [|split]]]]]].
+      7: { intros j n Hno. destruct (U7 (j, n) (Hnt_other j n Hno)) as [X1 X2]. destruct (P3 (j, n)) as [Y1 [Y2 _]].
+           rewrite Y1, Y2, X1, X2, (Doth (j, n) Hno). split; reflexivity. }
+      7: { intros j f idx b Es Hrd Hnc Hfx Hdm.
+           assert (Hnb : forall e, In e (da_failed a) -> fe_idx e = j -> fe_bad e = false)
+             by (apply (Dnobad j f idx b Es (slot_lt c pos j f idx b Es) Hrd Hnc)).
+           assert (Hnt : not_target failed' (j, cf_name f)).
+           { intros e' f0 i0 He' Hb' _ X. injection X as X1 _. rewrite Egm in He'. apply in_map_iff in He'. destruct He' as [e [Ee He]]. subst e'.
+             destruct (Hgm e) as [G1 [G2 _]]. rewrite G1 in Hb'. rewrite G2 in X1. rewrite (Hnb e He (eq_sym X1)) in Hb'. discriminate Hb'. }
+           destruct (U7 _ Hnt) as [X1 X2]. pose proof (U8 j f idx b Es Hnt) as X3.
+           assert (Hjn : In j (seq 0 (length (c_disks c)))) by (apply in_seq; pose proof (slot_lt c pos j f idx b Es); lia).
+           destruct (P7 j f idx b Hjn Es) as [_ Pg]. destruct (P3 (j, cf_name f)) as [Yd [Yf _]].
+           assert (Ed7 : dam s7 j f = false) by (rewrite X2, Ddam; exact Hdm).
+           assert (Ef7 : fl_fixed (get_fl (r_flags s7) (j, cf_name f)) = false) by (rewrite X1, (Dnofix j f idx b Es (slot_lt c pos j f idx b Es) Hnc); exact Hfx).
+           destruct (Pg Ed7) as [_ [Q _]]. rewrite (Q Ef7), X3, Yd, Yf, Ed7, Ef7.
+           destruct Hrd as [y [Hry _]]. destruct (read_block_some bs s j f idx y Hry) as [g [Hg _]].
+           unfold opened_file. rewrite Hg, (Hnc g Hg). auto. }
       3: { rewrite P2. split; [exact U4a|]. intros Hu k. destruct (P3 k) as [Y _]. rewrite Y. apply (U4b Hu). }
       3: { rewrite P1. split; [exact U5a | exact U5b]. }
       3: { intros j n Hno. destruct (P3 (j, n)) as [_ [_ Y]]. rewrite Y, U5c. f_equal. apply (Doth (j, n)). exact Hno. }
@@ -991,9 +1133,11 @@ Section Pending.
       - intros j f idx b Es. destruct (U3 j f idx b Es) as [g7 [G1 [G2 [G3 _]]]].
         destruct (P3 (j, cf_name f)) as [Yd _].
         destruct (Hsd j f idx b Es g7 G1) as [X|[g [Hg [Hb _]]]]; [left; exact X | right].
-        unfold fblk at 1 3 5. rewrite Hg, Hb. split.
-        + intros i Hi Hin. rewrite (G2 i Hi). apply opened_file_blk. exact Hin.
-        + intro Hin. destruct G3 as [G3|[x [G3 G4]]]; [left; rewrite G3; apply opened_file_blk; exact Hin | right].
+        assert (Hblk' : forall i, fblk (r_fs s') j (cf_name f) i = nth i (ff_blocks g7) 0%N) by (intro i; unfold fblk; rewrite Hg, Hb; reflexivity).
+        split.
+        + intros i Hi Hin. rewrite Hblk', (G2 i Hi). apply opened_file_blk. exact Hin.
+        + intro Hin. rewrite Hblk'. destruct G3 as [[G3 G3h]|[x [G3 G4]]]; [left | right].
+          { rewrite (opened_file_blk s j f idx Hin) in G3, G3h. split; [exact G3|]. intro Hnc. destruct (G3h Hnc) as [Y|Y]; [left; rewrite Yd; exact Y | right; exact Y]. }
           destruct G4 as [G4a G4b]. exists x. split; [exact G3|]. split.
           * intro Hc. destruct (G4a Hc) as [Y|Y]; [left; rewrite Yd; exact Y | right; exact Y].
           * intro Hc. destruct (G4b Hc) as [Y|Y]; [left; rewrite Yd; exact Y | right; exact Y].
@@ -1007,7 +1151,8 @@ Section Pending.
             (fs_find (r_fs s') j (cf_name f) = None /\ dam s' j f = true /\ S idx = length (cf_blocks f))
             \/ ((forall i, i <> idx -> i < nblocks bs (cf_size f) -> fblk (r_fs s') j (cf_name f) i = fblk (r_fs s) j (cf_name f) i)
                 /\ (idx < nblocks bs (cf_size f) ->
-                      fblk (r_fs s') j (cf_name f) idx = fblk (r_fs s) j (cf_name f) idx
+                      (fblk (r_fs s') j (cf_name f) idx = fblk (r_fs s) j (cf_name f) idx
+                         /\ (fb_state b <> SChg -> dam s' j f = true \/ hash_ok hashf bs f idx b (fblk (r_fs s) j (cf_name f) idx) = true))
                       \/ exists x, fblk (r_fs s') j (cf_name f) idx = wbv f idx x
                                    /\ (fb_state b = SChg -> dam s' j f = true \/ NotOld j f idx b x)
                                    /\ (fb_state b <> SChg -> dam s' j f = true \/ hash_ok hashf bs f idx b x = true))))
@@ -1044,6 +1189,13 @@ Section Pending.
     Notation dam st j f := (fl_damaged (get_fl (r_flags st) (j, cf_name f))).
     Notation step := (fun s pos => if block_enabled nlev o c pos then stripe_step o c fs0 s pos else s).
 
+    (* the file f of disk j is intact in the damaged array as far as the positions < k go: not larger than recorded, every mapped
+       block reads and, unless it is a CHG block (no recorded hash), hashes to the recorded hash *)
+    Definition intactP (k j : nat) (f : cfile) : Prop :=
+      (fsz fs0 j (cf_name f) <= cf_size f)%N
+      /\ forall p i b, p < k -> slot_of c p j = SFile f i b ->
+           exists y, read_block bs s0 j f i = Some y /\ (fb_state b <> SChg -> hash_ok hashf bs f i b y = true).
+
     Record rinvP (k : nat) (s : rstate) : Prop := {
       rp_len : length (r_fs s) = length (c_disks c);
       (* the blocks at positions not yet visited are those of the damaged array *)
@@ -1052,11 +1204,16 @@ Section Pending.
          (written zero padded), which for a CHG block is not the stale old block *)
       rp_done : forall p j f i b, slot_of c p j = SFile f i b -> p < k ->
                   dam s j f = true
-                  \/ fblk (r_fs s) j (cf_name f) i = fblk fs0 j (cf_name f) i
+                  \/ (fblk (r_fs s) j (cf_name f) i = fblk fs0 j (cf_name f) i
+                      /\ (fb_state b <> SChg -> hash_ok hashf bs f i b (fblk fs0 j (cf_name f) i) = true))
                   \/ exists x, fblk (r_fs s) j (cf_name f) i = wbv f i x /\ (fb_state b = SChg -> NotOld j f i b x)
                                /\ (fb_state b <> SChg -> hash_ok hashf bs f i b x = true);
       (* nothing counted unrecoverable: no file flagged DAMAGED *)
-      rp_clean : r_unrec s = 0 -> forall key, fl_damaged (get_fl (r_flags s) key) = false
+      rp_clean : r_unrec s = 0 -> forall key, fl_damaged (get_fl (r_flags s) key) = false;
+      (* an intact file is not touched *)
+      rp_intact : forall p j f i b, slot_of c p j = SFile f i b -> intactP k j f ->
+                    fs_find (r_fs s) j (cf_name f) = fs_find fs0 j (cf_name f)
+                    /\ fl_fixed (get_fl (r_flags s) (j, cf_name f)) = false /\ dam s j f = false
     }.
 
     Lemma rinvP_0 : rinvP 0 s0.
@@ -1071,8 +1228,9 @@ Section Pending.
            - intros p j f i b Hs Hp. apply (rp_later k s I p j f i b Hs). lia.
            - intros p j f i b Hs Hp. destruct (Nat.eq_dec p k) as [E|E]; [subst p; exfalso; apply (Hno j f i b Hs)|].
              apply (rp_done k s I p j f i b Hs ltac:(lia)).
-           - apply (rp_clean k s I). }
-      destruct (fix_step_pending o c fs0 k s Hplain Hfix (rp_len k s I)) as [K1 [K2 [K3 [K4a K4b]]]].
+           - apply (rp_clean k s I).
+           - intros p j f i b Hs [Hi1 Hi2]. apply (rp_intact k s I p j f i b Hs). split; [exact Hi1 | intros p' i' b' Hp'; apply Hi2; lia]. }
+      destruct (fix_step_pending_full o c fs0 k s Hplain Hfix (rp_len k s I)) as [K1 [K2 [K3 [[K4a K4b] [_ [_ [_ [K8 K9]]]]]]]].
       pose proof (stripe_step_dam_mono false o c k fs0 s) as Kd.
       set (s' := stripe_step o c fs0 s k) in *.
       (* the block i of the file of a slot (p, j, f, i, b) with p <> k: untouched, or the file is flagged *)
@@ -1104,8 +1262,12 @@ Section Pending.
       - intros p j f i b Hs Hp. destruct (Nat.eq_dec p k) as [E|E].
         + subst p. destruct (g_wf bs c bm Hgeom k j f i b Hs) as [Hl Hw]. pose proof (idx_lt_nblocks bs (cf_size f) i Hl Hw) as Hin.
           destruct (K3 j f i b Hs) as [[_ [Kd' _]]|[_ Kw]]; [left; exact Kd'|].
-          destruct (Kw Hin) as [X|[x [X1 [X2 X3]]]].
-          * right. left. rewrite X. apply (rp_later k s I k j f i b Hs (le_n k)).
+          destruct (Kw Hin) as [[X Xh]|[x [X1 [X2 X3]]]].
+          * rewrite (rp_later k s I k j f i b Hs (le_n k)) in X, Xh.
+            destruct (fb_state b) eqn:Est.
+            -- destruct (Xh ltac:(discriminate)) as [Y|Y]; [left; exact Y | right; left; split; [exact X | intros _; exact Y]].
+            -- right. left. split; [exact X | intro Z; exfalso; apply Z; reflexivity].
+            -- destruct (Xh ltac:(discriminate)) as [Y|Y]; [left; exact Y | right; left; split; [exact X | intros _; exact Y]].
           * destruct (fb_state b) eqn:Est.
             -- destruct (X3 ltac:(discriminate)) as [Y|Y]; [left; exact Y | right; right; exists x; split; [exact X1 | split; [intro Z; discriminate Z | intros _; exact Y]]].
             -- destruct (X2 eq_refl) as [Y|Y]; [left; exact Y | right; right; exists x; split; [exact X1 | split; [intros _; exact Y | intro Z; exfalso; apply Z; reflexivity]]].
@@ -1113,6 +1275,24 @@ Section Pending.
         + destruct (rp_done k s I p j f i b Hs ltac:(lia)) as [X|X]; [left; apply Kd; exact X|].
           destruct (Hfr p j f i b Hs E) as [Y|[Y _]]; [|left; exact Y]. right. rewrite Y. exact X.
       - intros Hu key. assert (Hu0 : r_unrec s = 0) by lia. rewrite (K4b ltac:(lia) key). apply (rp_clean k s I Hu0).
+      - intros p j f i b Hs [Hi1 Hi2].
+        destruct (rp_intact k s I p j f i b Hs) as [R1 [R2 R3]]; [split; [exact Hi1 | intros p' i' b' Hp'; apply Hi2; lia]|].
+        assert (Hoth : (forall f' i' b', slot_of c k j = SFile f' i' b' -> cf_name f' <> cf_name f) ->
+                       fs_find (r_fs s') j (cf_name f) = fs_find fs0 j (cf_name f)
+                       /\ fl_fixed (get_fl (r_flags s') (j, cf_name f)) = false /\ dam s' j f = false).
+        { intro Hno. destruct (K8 j (cf_name f) Hno) as [X1 X2]. rewrite (K2 j (cf_name f) Hno), X1, X2. auto. }
+        destruct (slot_of c k j) as [|fk ik bk|h] eqn:Ek.
+        + apply Hoth. intros f' i' b' X. discriminate X.
+        + destruct (N.eq_dec (cf_name fk) (cf_name f)) as [En|En].
+          * destruct (g_same bs c bm Hgeom k p j fk ik bk f i b Ek Hs En) as [Ef _]. subst fk.
+            destruct (Hi2 k ik bk (Nat.lt_succ_diag_r k) Ek) as [y [Hry Hhy]].
+            destruct (K9 j f ik bk) as [X1 [X2 X3]]; [rewrite Ek; reflexivity | | | exact R2 | exact R3 |].
+            -- exists y. split; [|exact Hhy]. unfold read_block in *. rewrite R1. exact Hry.
+            -- intros g Hg. rewrite R1 in Hg. unfold cut_cond. unfold fsz in Hi1. rewrite Hg in Hi1.
+               assert (Y : (cf_size f <? ff_size g)%N = false) by (apply N.ltb_ge; exact Hi1). rewrite Y. reflexivity.
+            -- rewrite X1. auto.
+          * apply Hoth. intros f' i' b' X. injection X as X1 X2 X3. subst f'. exact En.
+        + apply Hoth. intros f' i' b' X. discriminate X.
     Qed.
 
     Lemma rinvP_loop : forall k, k <= bm -> rinvP k (fold_left step (seq 0 k) s0).
@@ -1152,7 +1332,8 @@ Section Pending.
         - rewrite F3. apply (rp_len bm s I).
         - intros p j f i b Hs. unfold fblk. rewrite (Efs p j f i b Hs). apply (rp_later bm s I p j f i b Hs).
         - intros p j f i b Hs. unfold fblk. rewrite F2, (Efs p j f i b Hs). apply (rp_done bm s I p j f i b Hs).
-        - intro Hu. rewrite F2. apply (rp_clean bm s I). lia. }
+        - intro Hu. rewrite F2. apply (rp_clean bm s I). lia.
+        - intros p j f i b Hs. rewrite F2, (Efs p j f i b Hs). apply (rp_intact bm s I p j f i b Hs). }
       destruct (IH s1 (fun x Hx => Hin x (or_intror Hx)) I1) as [I2 E2]. split; [exact I2 | congruence].
     Qed.
 
@@ -1183,7 +1364,8 @@ Section Pending.
       /\ (forall key, fl_damaged (get_fl (r_flags (out_st out)) key) = true -> r_unrec (out_st out) <> 0 /\ out_fail out = true)
       /\ forall p j f i b, slot_of c p j = SFile f i b ->
            dam (out_st out) j f = true
-           \/ fblk (r_fs (out_st out)) j (cf_name f) i = fblk fs0 j (cf_name f) i
+           \/ (fblk (r_fs (out_st out)) j (cf_name f) i = fblk fs0 j (cf_name f) i
+               /\ (fb_state b <> SChg -> hash_ok hashf bs f i b (fblk fs0 j (cf_name f) i) = true))
            \/ exists x, fblk (r_fs (out_st out)) j (cf_name f) i = wbv f i x /\ (fb_state b = SChg -> NotOld j f i b x)
                         /\ (fb_state b <> SChg -> hash_ok hashf bs f i b x = true).
     Proof.
@@ -1198,6 +1380,32 @@ Section Pending.
       - intros p j f i b Hs. apply (rp_done bm _ I p j f i b Hs (g_bm bs c bm Hgeom p j f i b Hs)).
     Qed.
 
+    (* a file that was intact in the damaged array -- not larger than recorded, every mapped block readable and, when it has a
+       recorded hash, hashing to it -- is not touched (content, size, time-stamp, inode) and not flagged *)
+    Theorem fix_run_intact_untouched :
+      let out := check_run hashf padz truncf bs nlev false newino now o c par fs0 objs (seq 0 bm) in
+      forall p j f i b, slot_of c p j = SFile f i b -> intactP bm j f ->
+        fs_find (r_fs (out_st out)) j (cf_name f) = fs_find fs0 j (cf_name f) /\ dam (out_st out) j f = false.
+    Proof.
+      cbn zeta. destruct fix_run_rinvP as [I _]. cbn zeta in I. intros p j f i b Hs Hi.
+      destruct (rp_intact bm _ I p j f i b Hs Hi) as [X1 [_ X3]]. auto.
+    Qed.
+
+    (* the blocks WITH a recorded hash (BLK, REP), any stripe: at the end of the run the file is flagged DAMAGED, or the block is a
+       block x that hashes to the recorded hash -- read from the disk and left as it was, or rebuilt and written zero padded *)
+    Theorem fix_run_blk_verified :
+      let out := check_run hashf padz truncf bs nlev false newino now o c par fs0 objs (seq 0 bm) in
+      forall p j f i b, slot_of c p j = SFile f i b -> fb_state b <> SChg ->
+        dam (out_st out) j f = true
+        \/ exists x, (fblk (r_fs (out_st out)) j (cf_name f) i = x \/ fblk (r_fs (out_st out)) j (cf_name f) i = wbv f i x)
+                     /\ hash_ok hashf bs f i b x = true.
+    Proof.
+      cbn zeta. intros p j f i b Hs Hnc. destruct fix_run_chg_pending as [_ [_ H]]. cbn zeta in H.
+      destruct (H p j f i b Hs) as [X|[[X Xh]|[x [X1 [_ X3]]]]]; [left; exact X | right | right].
+      - exists (fblk fs0 j (cf_name f) i). split; [left; exact X | exact (Xh Hnc)].
+      - exists x. split; [right; exact X1 | exact (X3 Hnc)].
+    Qed.
+
     (* ... under PastHashInvAll: not the block that any parity level encoded at that position *)
     Theorem fix_run_chg_not_old :
       PastHashInvAll hashf padz bs c par ->
@@ -1209,7 +1417,7 @@ Section Pending.
                      /\ forall l v, nth p (nth l par []) PNone = PEnc v -> x <> vnth v j.
     Proof.
       intro PHI. cbn zeta. intros p j f i b Hs Hc. destruct fix_run_chg_pending as [_ [_ H]]. cbn zeta in H.
-      destruct (H p j f i b Hs) as [X|[X|[x [X1 [X2 _]]]]]; [left; exact X | right; left; exact X | right; right].
+      destruct (H p j f i b Hs) as [X|[[X _]|[x [X1 [X2 _]]]]]; [left; exact X | right; left; exact X | right; right].
       exists x. split; [exact X1|]. intros l v Hl. apply (X2 Hc).
       apply (PHI p j f i b ltac:(rewrite Hbm; apply (g_bm bs c bm Hgeom p j f i b Hs)) Hs Hc l v Hl).
     Qed.
@@ -1307,7 +1515,7 @@ Section Pending.
            - intros p l Hp. apply (rm_parlater k s I). lia.
            - intros p j f i b Hs Hp. destruct (Nat.eq_dec p k) as [E|E]; [subst p; exfalso; apply (Hno j f i b Hs)|].
              apply (rm_good k s I p j f i b Hs). lia. }
-      destruct (fix_step_pending_full o c fs0 k s Hplain Hfix (rm_len k s I)) as [F1 [F2 [F3 [_ [[F5a F5b] [F6 F7]]]]]].
+      destruct (fix_step_pending_full o c fs0 k s Hplain Hfix (rm_len k s I)) as [F1 [F2 [F3 [_ [[F5a F5b] [F6 [F7 _]]]]]]].
       pose proof (stripe_step_dam_mono false o c k fs0 s) as Kd.
       set (s' := stripe_step o c fs0 s k) in *.
       (* the slot (p, j, f, i, b) against the file of disk j in stripe k *)
@@ -1459,6 +1667,12 @@ Record collision_free_synced (hashf : bid -> N -> hval) (padz : bid -> N -> bool
       cf_search hashf bs nosearch fsx (flat_map (fent_of hashf bs c p (st0 fs par)) (seq 0 (length (c_disks c)))) (vs p)
 }.
 
+(* the file f of disk j is intact in the damaged array (fs, par) of an array with pending changes *)
+Definition intact_pending (hashf : bid -> N -> hval) (bs : N) (c : content) (fs : list (option fsdisk)) (par : parity) (j : nat) (f : cfile) : Prop :=
+  (fsz fs j (cf_name f) <= cf_size f)%N
+  /\ forall p i b, slot_of c p j = SFile f i b ->
+       exists y, read_block bs (st0 fs par) j f i = Some y /\ (fb_state b <> SChg -> hash_ok hashf bs f i b y = true).
+
 Section StatementsP.
   Variable hashf : bid -> N -> hval.
   Variable padz : bid -> N -> bool.
@@ -1491,7 +1705,8 @@ Section StatementsP.
     /\ (forall key, fl_damaged (get_fl (r_flags (out_st out)) key) = true -> r_unrec (out_st out) <> 0 /\ out_fail out = true)
     /\ forall p j f i b, slot_of c p j = SFile f i b ->
          fl_damaged (get_fl (r_flags (out_st out)) (j, cf_name f)) = true
-         \/ fblk (r_fs (out_st out)) j (cf_name f) i = fblk fs j (cf_name f) i
+         \/ (fblk (r_fs (out_st out)) j (cf_name f) i = fblk fs j (cf_name f) i
+             /\ (fb_state b <> SChg -> hash_ok hashf bs f i b (fblk fs j (cf_name f) i) = true))
          \/ exists x, fblk (r_fs (out_st out)) j (cf_name f) i = wbv padz truncf bs f i x /\ (fb_state b = SChg -> NotOld hashf padz bs j f i b x)
                       /\ (fb_state b <> SChg -> hash_ok hashf bs f i b x = true).
   Proof.
@@ -1527,6 +1742,32 @@ Section StatementsP.
   Proof.
     intros Hp Hf Hg Hbm Hl Hpl [O1 _] PHI.
     exact (fix_run_exit0_chg_not_old hashf padz truncf bs nlev newino now o c bm fs par Hp Hf Hg Hl Hpl objs O1 Hbm PHI).
+  Qed.
+
+  Theorem run_fix_intact_untouched o c bm fs par objs :
+    plain nlev o -> co_fix o = true -> geom bs c bm -> c_blockmax c = bm ->
+    length fs = length (c_disks c) -> nlev <= length par -> objs_ok c objs ->
+    let out := check_run o c par fs objs (seq 0 bm) in
+    forall p j f i b, slot_of c p j = SFile f i b -> intact_pending hashf bs c fs par j f ->
+      fs_find (r_fs (out_st out)) j (cf_name f) = fs_find fs j (cf_name f)
+      /\ fl_damaged (get_fl (r_flags (out_st out)) (j, cf_name f)) = false.
+  Proof.
+    intros Hp Hf Hg Hbm Hl Hpl [O1 _]. cbn zeta. intros p j f i b Hs [Hi1 Hi2].
+    apply (fix_run_intact_untouched hashf padz truncf bs nlev newino now o c bm fs par Hp Hf Hg Hl Hpl objs O1 Hbm p j f i b Hs).
+    split; [exact Hi1|]. intros p' i' b' _ Hs'. apply (Hi2 p' i' b' Hs').
+  Qed.
+
+  Theorem run_fix_blk_verified o c bm fs par objs :
+    plain nlev o -> co_fix o = true -> geom bs c bm -> c_blockmax c = bm ->
+    length fs = length (c_disks c) -> nlev <= length par -> objs_ok c objs ->
+    let out := check_run o c par fs objs (seq 0 bm) in
+    forall p j f i b, slot_of c p j = SFile f i b -> fb_state b <> SChg ->
+      fl_damaged (get_fl (r_flags (out_st out)) (j, cf_name f)) = true
+      \/ exists x, (fblk (r_fs (out_st out)) j (cf_name f) i = x \/ fblk (r_fs (out_st out)) j (cf_name f) i = wbv padz truncf bs f i x)
+                   /\ hash_ok hashf bs f i b x = true.
+  Proof.
+    intros Hp Hf Hg Hbm Hl Hpl [O1 _].
+    exact (fix_run_blk_verified hashf padz truncf bs nlev newino now o c bm fs par Hp Hf Hg Hl Hpl objs O1 Hbm).
   Qed.
 
   (* mixed arrays: the blocks of the entirely synced stripes *)
